@@ -1,6 +1,6 @@
 (* Static half of C06, inductive: the theorem.  A proper tree that keeps the
-   arity discipline of Proofs/C06/Balanced.v has no dropped arm, no empty
-   nested body and is not silent, so every placeholder of its build is patched
+   arity discipline of Proofs/C06/Balanced.v has no dropped arm, so every
+   placeholder of its build is patched
    (Proofs/C05/Bodies.v); with the ghost invariant of the finished build
    (Proofs/C06/StaticBodies.v) the program is typable, for every initial state
    of the data object. *)
@@ -12,32 +12,25 @@ From GV Require Import Base.Result Gen.TokenTypes Gen.Defs Gen.Instr Gen.Exec Mo
 Import ListNotations.
 
 Definition P_good (t : tree) : Prop :=
-  forall lst cond tail n, bal lst cond tail t = Some n ->
-    drops_arms t = false /\ has_empty_body t = false /\ (silent t = true -> n = 0).
+  forall lst cond tail n, bal lst cond tail t = Some n -> drops_arms t = false.
 
 Lemma bal_good : forall t, P_good t.
 Proof.
   induction t as [ix d l r IHl IHr] using tree_ind'.
   intros lst cond tail n Hbal.
-  cbn [bal] in Hbal. cbv zeta in Hbal. cbn [drops_arms has_empty_body silent].
+  cbn [bal] in Hbal. cbv zeta in Hbal. cbn [drops_arms].
   destruct l as [a|]; destruct r as [b|].
   all: destruct (kind_of d) eqn:Hk.
   all: bal_prep Hbal.
   all: try (inversion Hbal; subst n; clear Hbal).
   all: repeat match goal with
               | Hb : bal _ _ _ ?a = Some _, IH : forall x, Some ?a = Some x -> P_good x |- _ =>
-                let A := fresh "A" in let B := fresh "B" in let C := fresh "C" in
-                destruct (IH a eq_refl _ _ _ _ Hb) as [A [B C]]; clear Hb
+                let A := fresh "A" in
+                pose proof (IH a eq_refl _ _ _ _ Hb) as A; clear Hb
               end.
   all: cbn [opt_b orb].
   all: repeat match goal with H : _ = false |- _ => rewrite H end.
-  all: cbn [orb andb].
-  all: try solve [repeat split; try reflexivity; intros; try discriminate; auto; lia].
-  all: try match goal with C : silent ?b = true -> 1 = 0 |- context [silent ?b || _] =>
-                destruct (silent b) eqn:?; [specialize (C eq_refl); discriminate C|] end.
-  all: repeat split; try reflexivity; intros; try discriminate.
-  all: repeat match goal with H : _ && _ = true |- _ => apply andb_true_iff in H; destruct H end; auto.
-  all: repeat match goal with C : silent ?b = true -> _, H : silent ?b = true |- _ => specialize (C H) end; lia.
+  all: reflexivity.
 Qed.
 
 Theorem balanced_typed : forall init lit_ok t s entry,
@@ -46,10 +39,8 @@ Theorem balanced_typed : forall init lit_ok t s entry,
 Proof.
   intros init lit_ok t s entry Hbal Hc.
   pose proof Hbal as Hb. unfold balanced in Hb. apply is_some_n_eq in Hb.
-  destruct (bal_good t _ _ _ _ Hb) as [Hd [He Hs]].
-  assert (Hsil : silent t = false) by (destruct (silent t); [specialize (Hs eq_refl); discriminate Hs | reflexivity]).
-  assert (Hk1 : empty_after_end init t = false) by (unfold empty_after_end; rewrite Hsil; reflexivity).
-  pose proof (compile_jinv init lit_ok t s entry (conj Hd He) Hk1 Hc) as [_ Hj].
+  pose proof (bal_good t _ _ _ _ Hb) as Hd.
+  pose proof (compile_jinv init lit_ok t s entry Hd Hc) as [_ Hj].
   destruct (compile_static init lit_ok t s entry Hbal Hc) as [g [Hg [Hse Hen]]].
   exists (dmap_of_g init g). apply ghost_typed; auto.
   intros k T Hk HT. destruct (Hj k T HT) as [[A _]|[[_ A]|[_ [_ []]]]]; lia.
